@@ -183,6 +183,7 @@ def check(prop, tier, seed, replay_path=None):
     out_lines = replay_known(mod, ctx, known)
     n_corpus = replay_corpus(mod, ctx)
     try:
+        ctx.t0 = time.time()     # the exploration budget starts here: waiting for the build lock must not eat it
         mod.run(ctx)
         if (broken or ctx.disagreements) and hasattr(mod, "search"):
             mod.search(ctx, broken)
